@@ -281,6 +281,8 @@ def run(ctx):
     import invariants as _inv
     ok1, why1 = _inv.Inv(ctx).get('I1')
     ctx.inst('R3', 'validated rows keep slot positions', ok1, why1, None, key='asefile::cel::CelsData::validate|R3|I1')
+    ok10, why10 = _inv.Inv(ctx).get('I10')
+    ctx.inst('R5', 'parent table', ok10, why10, None, key='asefile::layer::compute_parents|R5|I10')     # what 'visible' walks (seed C19-n)
     import C09 as _c09
     import rule as _R
     _c09.level_source(_R.View(ctx, {'V7': 'R5'}))      # "visible" rests on the nesting levels as the file gives them (seed C19-k: u8)
